@@ -9,6 +9,7 @@ import (
 
 	"p9verif/evid"
 	"p9verif/memfs"
+	"p9verif/memtree"
 	"p9verif/mockfs"
 	"p9verif/peers"
 	"p9verif/refcodec"
@@ -371,6 +372,134 @@ func runCoClientCase(c coCase, st *coStats) *fail {
 	return nil
 }
 
+// --- held writes: the bytes a backend is given for a write stay those of its own frame ---
+
+type heldWriteCase struct {
+	Sizes   []int `json:"sizes"`   // payload sizes of the writes held inside the backend (one file each)
+	Traffic int   `json:"traffic"` // rounds of other requests served meanwhile
+	Conns   int   `json:"conns"`   // 2: the other requests come from a second connection
+}
+
+func runHeldWriteCase(c heldWriteCase) *fail {
+	fs := memfs.New(memfs.Options{NativeWalkGetAttr: true})
+	var inodes []*memtree.Inode
+	for i := range c.Sizes {
+		in, _ := fs.Tree.Create(fs.Tree.Root, fmt.Sprintf("w%d", i), 0o644, 0, 0)
+		inodes = append(inodes, in)
+	}
+	tfile, _ := fs.Tree.Create(fs.Tree.Root, "t", 0o644, 0, 0)
+	d, _ := fs.Tree.Mkdir(fs.Tree.Root, "dir", 0o755, 0, 0)
+	fs.Tree.Create(d, "leaf", 0o644, 0, 0)
+	srv := p9.NewServer(fs)
+	s := peers.Start(srv)
+	defer s.Close(10 * time.Second)
+	s2 := s
+	if c.Conns > 1 {
+		s2 = peers.Start(srv)
+		defer s2.Close(10 * time.Second)
+	}
+	desc := fmt.Sprintf("%+v", c)
+	handles := map[int]int{} // write index -> File
+	for _, ss := range []*peers.Session{s, s2} {
+		if _, err := ss.Version(8192, "9P2000.L.Google.7"); err != nil {
+			return failf("harness-version", "HARNESS-ERROR %v", err)
+		}
+		setup := []*refcodec.Msg{tAttach(0, nofid, ""), tWalk(0, 1, "t"), tOpen(1, 2)}
+		if ss == s {
+			for i := range c.Sizes {
+				setup = append(setup, tWalk(0, uint64(10+i), fmt.Sprintf("w%d", i)), tOpen(uint64(10+i), 2))
+			}
+		}
+		for j, m := range setup {
+			before := fs.Seq()
+			r, err := ss.Call(withTag(cloneMsg(m), uint16(1+j)))
+			if err != nil || r.Type == refcodec.Rlerror {
+				return failf("harness-setup", "HARNESS-ERROR %s: %v %v", m, r, err)
+			}
+			if ss == s && m.Type == refcodec.Tlopen && m.U("fid") >= 10 {
+				for _, cl := range fs.LogSince(before) {
+					if cl.Op == "Open" {
+						handles[int(m.U("fid"))-10] = cl.Handle
+					}
+				}
+			}
+		}
+		if s == s2 {
+			break
+		}
+	}
+	payload := func(i int) []byte {
+		b := make([]byte, c.Sizes[i])
+		for k := range b {
+			b[k] = byte(0x41 + i)
+		}
+		if len(b) > 0 {
+			b[len(b)-1] = byte(0x61 + i)
+		}
+		return b
+	}
+	// the writes of connection 1 are held inside the backend, each at its own gate
+	var gates []*memfs.Gate
+	for i := range c.Sizes {
+		hh := handles[i]
+		g := memfs.NewGate(func(cl *memfs.Call) bool { return cl.Op == "WriteAt" && cl.Handle == hh })
+		fs.AddGate(g)
+		defer g.Release()
+		gates = append(gates, g)
+		s.Send(refcodec.Encode(withTag(tWriteB(uint64(10+i), 0, payload(i)), uint16(100+i))))
+		select {
+		case <-g.Entered:
+		case <-time.After(20 * time.Second):
+			return failf("harness-gate", "HARNESS-ERROR write %d never reached the backend (%s)", i, desc)
+		}
+	}
+	// other requests are served meanwhile
+	for r := 0; r < c.Traffic; r++ {
+		other := bytes.Repeat([]byte{0xEE}, 1+(r*7)%60)
+		for j, m := range []*refcodec.Msg{tWriteB(1, uint64(r), other), tWalk(0, uint64(200+r), "dir", "leaf"), tStatfs(0), tClunk(uint64(200 + r)), tRead(1, 0, 30)} {
+			rep, err := s2.Call(withTag(m, uint16(1000+r*8+j)))
+			if err != nil {
+				return failf("no-reply:traffic", "%s while %d writes were held: %v (%s)", m, len(c.Sizes), err, desc)
+			}
+			if rep.Type == refcodec.Rlerror {
+				return failf("harness-traffic", "HARNESS-ERROR %s => %s", m, rep)
+			}
+		}
+	}
+	for _, g := range gates {
+		g.Release()
+	}
+	for range c.Sizes {
+		raw, err := s.Recv(20 * time.Second)
+		if err != nil {
+			return failf("no-reply:held-write", "after the release: %v (%s)", err, desc)
+		}
+		rep, derr := refcodec.DecodeStrict(raw)
+		if derr != nil || rep.Type != refcodec.Rwrite {
+			return failf("carry-over:reply:Rwrite", "reply %x (%v) (%s)", raw[:min(len(raw), 40)], derr, desc)
+		}
+		i := int(rep.Tag) - 100
+		if i < 0 || i >= len(c.Sizes) || rep.U("count") != uint64(c.Sizes[i]) {
+			return failf("carry-over:reply:Rwrite", "reply %s for a write of %d bytes (%s)", rep, c.Sizes[max(0, min(i, len(c.Sizes)-1))], desc)
+		}
+	}
+	// what the backend stored is what each frame carried
+	for i, in := range inodes {
+		want := payload(i)
+		got := make([]byte, len(want)+8)
+		n := in.ReadAt(got, 0)
+		if !bytes.Equal(got[:n], want) {
+			return failf("carry-over:write-data", "write %d carried %d bytes %x…; after being held inside the backend while other requests were served the backend stored %d bytes %x… (%s)", i, len(want), want[:min(len(want), 16)], n, got[:min(n, 16)], desc)
+		}
+	}
+	_ = tfile
+	return nil
+}
+
+func tWriteB(fid, off uint64, data []byte) *refcodec.Msg {
+	return refcodec.New(refcodec.Twrite, 0, "fid", fid, "offset", off, "data", data)
+}
+
 // --- overlapping reads: the data of a read reply is exactly what the backend produced for it ---
 
 type overlapCase struct {
@@ -526,6 +655,7 @@ func init() {
 		registerReplay("C18/server", func(c coCase) *fail { return runCoCase(c, nil) })
 		registerReplay("C18/client", func(c coCase) *fail { return runCoClientCase(c, nil) })
 		registerReplay("C18/overlapping-reads", runOverlapCase)
+		registerReplay("C18/held-writes", runHeldWriteCase)
 	})
 }
 
@@ -563,6 +693,19 @@ func TestC18(t *testing.T) {
 			}
 		}
 	}
+	rapidCases(h, "held-writes", env.PerShard(env.Pick(800, 40000)), func(rt *rapid.T) heldWriteCase {
+		c := heldWriteCase{Traffic: rapid.IntRange(1, 6).Draw(rt, "traffic"), Conns: rapid.IntRange(1, 2).Draw(rt, "conns")}
+		for i := rapid.IntRange(1, 8).Draw(rt, "nheld"); i > 0; i-- {
+			c.Sizes = append(c.Sizes, rapid.SampledFrom([]int{1, 2, 8, 16, 40, 41, 48, 49, 57, 64, 100, 1000, 5000}).Draw(rt, "size"))
+		}
+		return c
+	}, func(c heldWriteCase) *fail {
+		h.Case(evid.HashJSON(c), len(c.Sizes) >= 2, "held-writes")
+		if h.WantSample("held-writes") {
+			h.Sample("held-writes", c)
+		}
+		return runHeldWriteCase(c)
+	})
 	rapidCases(h, "overlapping-reads", env.PerShard(env.Pick(800, 60000)), func(rt *rapid.T) overlapCase {
 		return overlapCase{TailReads: rapid.SampledFrom([]int{0, 1, 3, 8, 64}).Draw(rt, "tail"), HoldAfter: rapid.Bool().Draw(rt, "after"),
 			SizeA: rapid.SampledFrom([]int{1, 100, 1000, 8000}).Draw(rt, "a"), SizeB: rapid.SampledFrom([]int{1, 100, 1000, 8000}).Draw(rt, "b"),
